@@ -57,6 +57,8 @@ def spec_items(tier):
 
 def items(tier, seed):
     for i, it in enumerate(spec_items(tier)):
+        if i % 3 == 2:
+            it = build.with_ns_rewards(it)
         yield (it, (i + seed) % 6, (i + seed) % 2)
 
 
